@@ -12,6 +12,7 @@ import (
 	"time"
 
 	"github.com/criyle/go-sandbox/pkg/forkexec"
+	"github.com/criyle/go-sandbox/pkg/mount"
 	"github.com/criyle/go-sandbox/pkg/rlimit"
 	"github.com/criyle/go-sandbox/zverif/vcore"
 	"golang.org/x/sys/unix"
@@ -334,11 +335,13 @@ func c07KRun(c *vcore.Ctx) *vcore.Violation {
 	src := c.Src
 	k := genKLaunch(c, false)
 	defer k.done()
-	fail := src.Pick("failure", "missing_workdir", "missing_executable", "garbage_executable", "nonexec_executable", "closed_descriptor", "callback_error", "rlimit_above_hard", "long_hostname")
+	fail := src.Pick("failure", "missing_workdir", "missing_executable", "garbage_executable", "nonexec_executable", "closed_descriptor", "callback_error", "rlimit_above_hard", "long_hostname",
+		"bad_mount_source", "invalid_id_map", "unmapped_uid")
 	marker := filepath.Join(c.Dir, fmt.Sprintf("c07-marker-%d", src.Int(1000000, "marker")))
 	os.Remove(marker)
 	script := []string{"sys", "2", "s:" + marker, "0x41", "0644", "0", "0", "0", "exit", "0"}
 	wantLoc := ""
+	wantIdx := -1
 	target := probePath
 	switch fail {
 	case "missing_workdir":
@@ -369,6 +372,37 @@ func c07KRun(c *vcore.Ctx) *vcore.Violation {
 		k.r.CloneFlags |= unix.CLONE_NEWUTS
 		k.r.HostName = strings.Repeat("h", 70)
 		wantLoc = "sethostname"
+	case "bad_mount_source":
+		// pivoted root in new mount+user namespaces; mount k of n has a source that does not exist
+		root := filepath.Join(c.Dir, "c07root")
+		os.MkdirAll(root, 0755)
+		k.r.Credential = nil
+		k.r.CloneFlags |= unix.CLONE_NEWNS | unix.CLONE_NEWUSER
+		k.r.PivotRoot = root
+		n := 1 + src.Int(3, "nmounts")
+		bad := src.Int(n, "badmount")
+		for i := 0; i < n; i++ {
+			m := mount.Mount{Source: filepath.Dir(probePath), Target: fmt.Sprintf("m%d", i), Flags: unix.MS_BIND | unix.MS_REC}
+			if i == bad {
+				m.Source = "/nonexistent-verif-source"
+			}
+			sp, err := m.ToSyscall()
+			if err != nil {
+				vcore.Harnessf("ToSyscall: %v", err)
+			}
+			k.r.Mounts = append(k.r.Mounts, *sp)
+		}
+		wantLoc, wantIdx = "mount", bad
+		k.r.WorkDir = ""
+	case "invalid_id_map":
+		k.r.Credential = nil
+		k.r.CloneFlags |= unix.CLONE_NEWUSER
+		k.r.UIDMappings = []syscall.SysProcIDMap{{ContainerID: 0, HostID: 0, Size: 0}}
+		wantLoc = "unshare_user_read"
+	case "unmapped_uid":
+		k.r.CloneFlags |= unix.CLONE_NEWUSER
+		k.r.Credential = &syscall.Credential{Uid: 4242, Gid: 0, NoSetGroups: true}
+		wantLoc = "setuid"
 	}
 	c.Logf("induced failure=%s vector=%s", fail, k.vector)
 	c.Event("fail:" + fail)
@@ -403,6 +437,9 @@ func c07KRun(c *vcore.Ctx) *vcore.Violation {
 		}
 		if ce.Location.String() != wantLoc {
 			return vcore.Violate(prop, "error_wrong_step", fail, "error names step %q, the failing step is %q (%v)", ce.Location.String(), wantLoc, err)
+		}
+		if wantIdx >= 0 && ce.Index != wantIdx {
+			return vcore.Violate(prop, "error_wrong_index", fail, "error names entry %d, the failing entry is %d (%v)", ce.Index, wantIdx, err)
 		}
 	}
 	// the child is gone and reaped when Start returns
